@@ -123,7 +123,7 @@ class OpticalSetupBlock(Block):
     def __init__(
         self,
         format: OpticalSetupBlockFormat = OpticalSetupBlockFormat.basicFormat,
-        channels: List[OpticalChannelData] = [],
+        channels: List[OpticalChannelData] = None,
         **kwargs,
     ) -> None:
         """A data block containing information about the physical setup of
@@ -132,7 +132,7 @@ class OpticalSetupBlock(Block):
 
         super().__init__(**kwargs)
         self.format = format
-        self.channels = channels
+        self.channels = channels if channels is not None else []
 
     @staticmethod
     def _build(stream, format) -> "OpticalSetupBlock":
